@@ -6,7 +6,10 @@ ASSERT_DEF = ("SBEPP_ENABLE_ASSERTS_WITH_HANDLER",)
 
 
 def configs_for(tier):
-    cf = [("g++", "c++11", ("-O1",), ASSERT_DEF), ("g++", "c++20", ("-O1",), ASSERT_DEF)]
+    # the second compiler is part of the quick tier too: the byte-swap / bit_cast paths are selected by compiler and
+    # language standard
+    cf = [("g++", "c++11", ("-O1",), ASSERT_DEF), ("g++", "c++20", ("-O1",), ASSERT_DEF),
+          ("clang++", "c++14", ("-O1",), ASSERT_DEF)]
     if tier == "thorough":
         cf += [("g++", "c++14", ("-O1",), ASSERT_DEF), ("g++", "c++17", ("-O2",), ASSERT_DEF),
                ("g++", "c++23", ("-O1",), ASSERT_DEF),
